@@ -9,7 +9,7 @@ NOTE_COMMON = ("Trusted: Lean 4.33 kernel + Mathlib (axioms propext, Classical.c
                "floating-point rounding, overflow and the sparse solver are not modelled.")
 
 T = "Lean 4 proof (kernel-checked theorems about the model) + model/implementation correspondence (exact-rational driver vs real code); failing-input search on the implementation when either breaks"
-TG = T + "; the coefficient formulas of the matrix builders, ghost cells and boundary rows are REGENERATED from the numpy source on every run (translators T-num, T-upw, T-bc) and proved equal to the model"
+TG = T + "; the coefficient formulas of the matrix builders, ghost cells and boundary rows are REGENERATED from the numpy source on every run (translators T-num, T-upw, T-bc, T-avg; solver assembly T-asm; caching state machine T-state) and proved equal to the model"
 CLAIMED = {
     "C01": (TG, "Every flux-form term of the model is the divergence of a face flux (C05 lemmas) and the consistent-volume-weighted sum of a divergence along any grid "
             "line telescopes to the two boundary faces for every number of cells (Finset.sum_range_sub) — so interior fluxes cancel for all sizes, spacings and fields; "
@@ -47,7 +47,7 @@ CLAIMED = {
             "mirror theorems (w,p,e) -> (e,p,w) incl. upwind boundary corrections and TVD for every limiter; redundant-axis theorems (stencil along a constant direction vanishes, kept "
             "directions coincide between Grid3D/2D/1D, Cylindrical3D/2D, Polar2D/Cylindrical1D, lifted solutions satisfy interior and ghost rows); shift invariance on uniform axes.",
             "§6 C08", "Known finding upwind-periodic-not-shift-invariant (boundary treatment of upwind at periodic faces)."),
-    "C09": ("Lean 4 proof by induction over operation histories of a state-machine model (content stamps) + history correspondence against the real objects",
+    "C09": ("Lean 4 proof by induction over operation histories of a state-machine model (content stamps); the transition programs of apply_BCs, _BCs_outdated, solvePDE, solveExplicitPDE, copy, update_value, setters, constructors and operators are REGENERATED from the Python AST on every run (T-state) and proved equal to the model's step function for every state; + history correspondence against the real objects",
             "For EVERY finite history over the edit/solve alphabet (BC edits incl. silent in-place ones, value edits, update_value, apply_BCs, solvePDE, solveExplicitPDE, copy, "
             "arithmetic, new variables on a shared BC object) the next solve uses boundary terms built from the current boundary conditions and the current interior "
             "(solve_uses_current_bc, no side condition), cached terms and ghost layer are never stale unless the variable is flagged outdated (cacheOK_run, ghostOK_run), "
@@ -57,10 +57,10 @@ CLAIMED = {
     "C10": (T, "Constructor laws for every strictly increasing face list of any length; (N,L) form = face form on equispaced faces; cellvolume = geometric volume per cell for 8 classes "
             "(annular sectors, shells), positivity, telescoping totals; SphericalGrid3D theta-factor proved NOT geometric over the reals (known finding).",
             "§6 C10", "Known finding sph3-cellvolume-theta-factor replayed every run."),
-    "C11": (T, "Two-point width-weighted means: betweenness, constants, HM <= AM over any ordered field, HM <= GM <= AM over the reals (Real.exp/log), linear exactness of linearMean on "
+    "C11": (TG, "Two-point width-weighted means: betweenness, constants, HM <= AM over any ordered field, HM <= GM <= AM over the reals (Real.exp/log), linear exactness of linearMean on "
             "non-uniform grids, locality, donor-cell / inflow-boundary / zero-velocity cases of upwindMean, zero handling of harmonic and geometric means identical in 1-D and N-D.",
             "§6 C11", ""),
-    "C12": (T, "Transient row law alpha (x - old)/dt + L x = s for scalar or per-cell alpha; steady solutions are fixed points for every dt, alpha (and reproduced given uniqueness); exact identities "
+    "C12": (TG, "Transient row law alpha (x - old)/dt + L x = s for scalar or per-cell alpha; steady solutions are fixed points for every dt, alpha (and reproduced given uniqueness); exact identities "
             "giving the dt -> infinity and dt -> 0 laws with explicit constants; explicit step = old + dt RHS with ghosts re-imposed; implicit/explicit gap = (dt^2/alpha^2) L(s - L x).",
             "§6 C12", ""),
     "C13": ("Lean 4 proof about the limiter formulas GENERATED from utilities.py on every run (translator T-lim) + numeric cross-check of the translation",
